@@ -10,6 +10,7 @@ import (
 	"verif/simrt"
 
 	"github.com/bfenetworks/bfe/bfe_balance/backend"
+	"github.com/bfenetworks/bfe/bfe_balance/bal_slb"
 	"github.com/bfenetworks/bfe/bfe_basic"
 )
 
@@ -213,6 +214,12 @@ func (h *hist) selectOnce() {
 		s.Probe("wlc_checked")
 	}
 
+	if h.focus == "C02" && retry <= g.RetryMax && des.Name != "GSLB_BLACKHOLE" && len(elig(des)) > 0 && !anyRamp && (err != nil || got != des) {
+		// the instance with history must send the key where a fresh instance of the same
+		// configuration sends it (it has eligible backends there and retries are not exhausted)
+		s.FailK("C02.subcluster", "subcluster-depends-on-history-or-order", "key %d: instance with history chose %q (err=%v), a fresh instance of the same configuration chooses %s", ki, req.Backend.SubclusterName, err, des.Name)
+		return
+	}
 	if h.focus == "C02" && err == nil && retry <= g.RetryMax && got == des && len(elig(des)) > 0 && !anyRamp {
 		// same request against the permuted-listing twin in the same eligibility state
 		treq := mkReq(g, ki, retry)
@@ -231,6 +238,53 @@ func (h *hist) selectOnce() {
 			}
 		}
 	}
+}
+
+// selectWLCDirect calls BalanceRR.Balance with WlcSimple / WlcSmooth on one
+// sub-cluster (WlcSimple is not reachable through BalanceGslb) and checks
+// eligibility and minimality of connections/weight by exact cross-multiplication.
+func (h *hist) selectWLCDirect() {
+	s := h.s
+	c, su, _ := h.pickBackend("wlc")
+	g := h.t.conf[c.Name]
+	if g.SlowStart > 0 {
+		return
+	}
+	bal, err := h.main.table.Lookup(c.Name)
+	if err != nil {
+		return
+	}
+	rr := bal.VerifSubs()[su.Name]
+	if rr == nil {
+		return
+	}
+	algo := []int{bal_slb.WlcSimple, bal_slb.WlcSmooth}[h.tp.Draw(2, "wlc.algo")]
+	b, err := rr.Balance(algo, nil)
+	el := su.eligible()
+	s.Checked(1)
+	h.note("wlc direct algo=%d on %s -> %v err=%v", algo, su.Name, addrOf(b), err)
+	if len(el) == 0 {
+		if err == nil {
+			s.FailK("C04.eligible", "wlc-success-without-eligible", "WLC (algo %d) returned %s although no backend of %s is eligible", algo, addrOf(b), su.Name)
+		}
+		return
+	}
+	if err != nil {
+		s.FailK("C04.eligible", "wlc-error-with-eligible", "WLC (algo %d) failed although %d backends of %s are eligible: %v", algo, len(el), su.Name, err)
+		return
+	}
+	mb := su.find(b.AddrInfo)
+	if mb == nil || !mb.eligible() {
+		s.FailK("C04.eligible", "wlc-ineligible-picked", "WLC (algo %d) picked %s which is down or has weight <= 0", algo, b.AddrInfo)
+		return
+	}
+	for _, o := range el {
+		if mb.Conns*o.Weight > o.Conns*mb.Weight {
+			s.FailK("C04.minimal", "not-minimal-conns-per-weight", "WLC (algo %d) picked %s (conns=%d weight=%d) although %s has conns=%d weight=%d", algo, mb.AddrInfo(), mb.Conns, mb.Weight, o.AddrInfo(), o.Conns, o.Weight)
+			return
+		}
+	}
+	s.Probe("wlc_direct_checked")
 }
 
 func addrOf(b *backend.BfeBackend) string {
@@ -321,7 +375,7 @@ func (h *hist) mutate(o genOpts) string {
 		return fmt.Sprintf("weight %s=%d", b.AddrInfo(), b.Weight)
 	case 1: // add a backend
 		if len(su.Backends) < o.maxBackends+2 {
-			b := genBackend(tp, o, 9, len(c.Subs), len(su.Backends))
+			b := genBackend(tp, o, tp.Draw(10, "mut.addr_octet"), len(c.Subs), len(su.Backends)) // addresses sorting before/after the survivors
 			su.Backends = append(su.Backends, b)
 			if g := h.t.conf[c.Name]; g.SlowStart > 0 {
 				h.rampTill[b.AddrInfo()] = time.Now().Add(time.Duration(g.SlowStart+1) * time.Second).Add(365 * 24 * time.Hour) // ramp starts at first selection; refined in selectOnce? keep conservative
@@ -442,6 +496,17 @@ func runHist(focus string, o genOpts) func(s *simrt.Sim) {
 		nops := tp.Range(4, 40, "n_ops")
 		for i := 0; i < nops && !s.Failed(); i++ {
 			k := tp.Draw(12, "op")
+			if focus == "C04" && k < 7 {
+				// least-connection mode is about connection counts: many open/close operations,
+				// and direct BalanceRR calls for both WLC variants
+				switch {
+				case k < 3:
+					k = 9
+				case k < 5:
+					h.selectWLCDirect()
+					continue
+				}
+			}
 			if nofault && k >= 7 && k != 9 {
 				k = 0
 			}
@@ -453,6 +518,9 @@ func runHist(focus string, o genOpts) func(s *simrt.Sim) {
 			case k == 8:
 				h.t.ver++
 				d := h.mutate(o)
+				for k := tp.Draw(3, "reload.compound"); k > 0; k-- {
+					d += " + " + h.mutate(o) // one reload may carry several changes (e.g. a rolling replacement)
+				}
 				if err := h.t.reload(h.main); err != nil {
 					s.FailK(focus+".reload", "reload-of-valid-config-failed", "reload (%s) failed: %v", d, err)
 					return
